@@ -1,12 +1,21 @@
 import PilotaModel.TGen.Keep
 import PilotaModel.Lemmas.SkipBin
 import PilotaModel.Props.C01
+import PilotaModel.Lemmas.TolerantK
 /-
   C13 — retained unknown fields survive re-encoding unchanged.
 
-  Full statement (DESIGN.md section 8, `keep_roundtrip`; not yet proved in full):
+  Full statement (DESIGN.md section 8, `keep_roundtrip`):
     decode dw n (encodeKeep dr n (decodeKeep dr n (encode dw n v))) = .ok v   for dr ⊆ dw.
-  Proved here: the retained chunk of an unknown field is EXACTLY the bytes of that field's value for
+  Proved here — the reader half in full: for EVERY document, declared type, well-typed wire value in the shadow's
+  domain, endianness, depth budget and trailing input, the retention decoder run on the encoding returns exactly the
+  value-level shadow `projTyK` (`keep_decode_is_projection`, `keep_tolerant`; Lemmas/TolerantK.lean, simultaneous
+  induction over the five mutually recursive retention decoders), and whenever the field loop of a struct succeeds,
+  what it retained is every undeclared field of the wire struct, each as the very value it had on the wire, in wire order
+  (`keep_retains_every_unknown_field`) — so the struct's re-encoding `known fields ++ retained` carries each of them byte
+  for byte (`Binary.enc` of the same value), at every nesting level the reader knows.  The writer-side half (a reader
+  with the full schema maps that re-encoding back to the original value) is not proved as one theorem; it is C08's
+  `tolerant_binary` applied to the re-encoding, and is checked by T1 on every run.  The steps: the retained chunk of an unknown field is EXACTLY the bytes of that field's value for
   every well-typed value within the skipper's depth budget (`retained_chunk_exact`); the field loop
   appends it to the retained list in wire order and leaves the known fields alone
   (`unknown_field_retained`); a struct re-encodes as its known fields followed by the retained
@@ -72,6 +81,56 @@ theorem union_single_unknown_retained (e : Endian) (dp : Option Nat) (d : Doc) (
   rw [decUnionK, hb]
   have hns : v.ttype ≠ .stop := Binary.ttype_isValue_ne_stop _ (Binary.val_ttype_isValue v)
   simp [hns, hk, retained_chunk_exact e dp hed v hw hd r]
+
+/-- **The retention decoder is its projection** (binary, little-endian, unchecked binary): at every fuel, errors included. -/
+theorem keep_tolerant (e : Endian) (dp : Option Nat) (d : Doc) (ty : STy) (w : TVal) (rest : Bytes) (f : Nat) (o : Out TVal)
+    (hed : EndianOk e dp) (hw : w.wt = true) (hp : projTyK d dp f ty w = some o) :
+    decTyK e dp d f ty (Binary.enc e w ++ rest) = withRest rest o :=
+  (corrK_all e dp d hed f).1 ty w rest o hw hp
+
+/-- the same at the budget the emitted `decode` entry point really uses -/
+theorem keep_decode_is_projection (e : Endian) (dp : Option Nat) (d : Doc) (n : String) (w : TVal) (rest : Bytes) (o : Out TVal)
+    (hed : EndianOk e dp) (hw : w.wt = true)
+    (hp : projTyK d dp (3 * (Binary.enc e w ++ rest).length + 8) (.ref n) w = some o) :
+    decodeK e dp d n (Binary.enc e w ++ rest) = withRest rest o := by
+  unfold decodeK
+  exact (corrK_all e dp d hed _).1 (.ref n) w rest o hw hp
+
+/-- **Every unknown field is retained, unchanged, in wire order**: when the retention decoder accepts the encoding of a
+wire struct `wfs` for the declared struct `n`, the decoded struct is its known fields (as `finish` orders and fills them)
+followed by exactly the undeclared fields of `wfs`, each with the value — hence the bytes — it had on the wire. -/
+theorem keep_retains_every_unknown_field (e : Endian) (dp : Option Nat) (d : Doc) (n : String) (fs : List Field) (wfs : TFields)
+    (rest : Bytes) (f : Nat) (v : TVal)
+    (hed : EndianOk e dp) (hn : d.find n = some (.struct fs)) (hw : wfs.wt = true)
+    (hp : projTyK d dp (f + 1) (.ref n) (.struct wfs) = some (.ok v)) :
+    decTyK e dp d (f + 1) (.ref n) (Binary.enc e (.struct wfs) ++ rest) = .ok (v, rest) ∧
+    ∃ out, v = .struct (TFields.ofList (out ++ unknownsOf d fs wfs)) := by
+  constructor
+  · exact (corrK_all e dp d hed (f + 1)).1 (.ref n) (.struct wfs) rest (.ok v) (by simpa [TVal.wt] using hw) hp
+  · simp only [projTyK, hn] at hp
+    cases hpf : projFieldsK d dp f fs [] [] wfs with
+    | none => simp [hpf] at hp
+    | some os =>
+      cases os with
+      | ok su =>
+        obtain ⟨slots, unk⟩ := su
+        simp only [hpf] at hp
+        have hu := projFieldsK_retains d dp f fs [] [] wfs slots unk hpf
+        simp at hu
+        cases hfin : finish fs slots with
+        | ok out => simp [hfin] at hp; exact ⟨out, by rw [← hp, hu]⟩
+        | err k => simp [hfin] at hp
+        | panic m => simp [hfin] at hp
+        | fuel => simp [hfin] at hp
+      | err k => simp [hpf] at hp
+      | panic m => simp [hpf] at hp
+      | fuel => simp [hpf] at hp
+
+/-! non-vacuity of the two theorems above: a reader that knows field 1 only, a writer that also sent 2 and 9 -/
+def rdDoc : Doc := [("S", .struct [{ id := 1, ty := .i32, required := true }])]
+def wrVal : TFields := .cons 9 (.bin [1, 2]) (.cons 1 (.i32 5) (.cons 2 (.list .i64 (.cons (.i64 7) .nil)) .nil))
+example : wrVal.wt = true ∧ projTyK rdDoc (some 64) 5 (.ref "S") (.struct wrVal) =
+    some (.ok (.struct (.cons 1 (.i32 5) (.cons 9 (.bin [1, 2]) (.cons 2 (.list .i64 (.cons (.i64 7) .nil)) .nil))))) := by decide
 
 /-! non-vacuity: an unknown field holding a nested container, within the default budget of 64 -/
 def unk : TVal := .map .i32 .list (.cons (.i32 7) (.list .binary (.cons (.bin [1, 2]) .nil)) .nil)
